@@ -87,7 +87,10 @@ func scenarioHistory(name string, w *World) *History {
 			txs = append(txs, txPropVote(v, "gen1", governance.OPIN_NEGATIVE, s.memo()))
 		}
 		s.block(txs, "prop vote")
-		s.empty(2) // finalisation is queued at BeginBlock and executed at EndBlock
+		// finalisation is queued at BeginBlock and executed at EndBlock of the next block: transactions of that
+		// block still run under the old options (a payment at the old minimal fee price is accepted)
+		s.block([][]byte{txSend(u2, u0.Addr, oltAmt("3000000000000"), s.memo())}, "send")
+		s.empty(1)
 		// activity that depends on the new options
 		s.block([][]byte{
 			txDomainCreate(u1, "after.ol", oltAmt("1002000000000000000000"), s.memo()),
